@@ -252,6 +252,37 @@ fn run<C: Cs>(ctx: &Ctx, idx: u64, nmax: usize) {
     }
 }
 
+/// volume: many honest proofs of one small statement (both attributes hidden: 6 same-secret challenges and 6 larger-interval
+/// challenges per proof). A verifier that mishandles one challenge shape in a few hundred rejects some of them.
+fn volume<C: Cs>(ctx: &Ctx, idx: u64, count: usize) {
+    let mut r = ctx.rng("c15v", idx);
+    let n = 2usize;
+    let Some(st) = Setup::<C>::new(ctx, n) else {
+        ctx.inconclusive("C15: key generation panicked (C18's business)");
+        return;
+    };
+    let (bases, cpk) = (st.bases_n(n), st.cpk_n(n));
+    let msgs = attributes::<C>(&mut r, n, 0);
+    let sig = Signature::<CL03<C>>::sign_multiattr(st.pk(), st.sk(), &bases, &msgs);
+    let u = vec![0usize, 1];
+    let items: Vec<usize> = (0..count).collect();
+    let case = format!("{}/volume/n2/U=[0,1]", C::NAME);
+    ctx.distinct(&case);
+    par_for_each(&items, 16, |_k| {
+        let Some(p) = ctx.call("PoKSignature::proof_gen", &case, None, || Ok::<_, ()>(Pok::<C>::proof_gen(sig.cl03Signature(), &cpk, st.pk(), &bases, &msgs, &u))).value else {
+            ctx.violation("C15:proof_gen-panicked", json!({"case":case}));
+            return;
+        };
+        let v = ctx.call("PoKSignature::proof_verify", &case, None, || Ok::<_, ()>(p.proof_verify(&cpk, st.pk(), &bases, &[], &u, n)));
+        if v.value != Some(true) {
+            let j = serde_json::to_value(&p).unwrap();
+            let ch: Vec<u32> = leaves(&j).iter().filter(|(p, _)| p.ends_with("/challenge") || p.ends_with("/C")).map(|(_, v)| v.significant_bits()).collect();
+            ctx.violation("C15:honest-proof-rejected", json!({"case":case,"outcome":format!("{:?}/{}", v.value, v.outcome.short()),"challenge_bit_lengths":ch}));
+        }
+        ctx.count("volume_proofs_verified", 1);
+    });
+}
+
 pub fn scenarios(ctx: &Ctx) -> Vec<Scenario> {
     use zkryptium::cl03::ciphersuites::{CL1024Sha256, CL2048Sha256};
     let mut v = Vec::new();
@@ -262,5 +293,7 @@ pub fn scenarios(ctx: &Ctx) -> Vec<Scenario> {
     for i in 0..ctx.t(1u64, 3u64) {
         v.push(scenario("CL1024", move |c| run::<CL1024Sha256>(c, i, nmax)));
     }
+    let count = ctx.t(250usize, 2500usize);
+    v.push(scenario("CL1024/volume", move |c| volume::<CL1024Sha256>(c, 800, count)));
     v
 }
